@@ -163,6 +163,7 @@ fn gen_medium(rng: &mut Rng) -> Medium {
         newtype: if rng.chance(1, 2) { NewtypeMode::Transparent } else { NewtypeMode::Wrapped },
         human_readable: rng.chance(1, 2),
         size_hint: [SizeHint::None, SizeHint::Exact, SizeHint::Lower][rng.usize_below(3)],
+        filter_fields: rng.chance(1, 6),
     }
 }
 
@@ -353,6 +354,7 @@ pub fn sweep_plans(reg: &[TypeEntry]) -> Vec<Plan> {
                     nums: if newtype == NewtypeMode::Wrapped { NumDelivery::Widened } else { NumDelivery::Typed },
                     human_readable: fi != 1,
                     size_hint: [SizeHint::None, SizeHint::Exact, SizeHint::Lower][fi],
+                    filter_fields: newtype == NewtypeMode::Wrapped && fi == 0,
                 };
                 let base = Plan { ty: e.name.clone(), gen: gen.clone(), patch: None, medium, wfaults: vec![], rfaults: vec![], retry: false, in_place: false };
                 let p = &e.probes[probe_index(&medium)];
@@ -555,6 +557,7 @@ pub fn shrink_candidates(p: &Plan, reg: &[TypeEntry]) -> Vec<Plan> {
     knob!(newtype);
     knob!(human_readable);
     knob!(size_hint);
+    knob!(filter_fields);
     if p.medium.framing == Framing::KeyedLenPrefixed {
         let mut q = p.clone();
         q.medium.framing = Framing::KeyedSelfDelim;
@@ -631,7 +634,7 @@ pub fn random_jplan(reg: &[TypeEntry], seed: u64, run: u64) -> JPlan {
     let gen = gen_leaves(&mut rng, &e.gen_kinds, style);
     let mut p = JPlan::base(&e.name, gen);
     p.pretty = rng.chance(1, 4);
-    p.reader = [JReader::Reader, JReader::Buffered, JReader::Slice, JReader::Str, JReader::Value][rng.usize_below(5)];
+    p.reader = [JReader::Reader, JReader::Buffered, JReader::Slice, JReader::Str, JReader::Value, JReader::Flatten, JReader::Untagged][rng.usize_below(7)];
     // benign disk behaviour, drawn independently of the fault mode (swarm)
     if rng.chance(1, 3) {
         p.w_chunk = 1 + rng.below(7) as u16;
@@ -703,6 +706,10 @@ pub fn random_jplan(reg: &[TypeEntry], seed: u64, run: u64) -> JPlan {
         }
     }
     p.in_place = p.reader != JReader::Value && rng.chance(1, 6);
+    if p.reader == JReader::Flatten && (p.trunc_at.is_some() || p.flip.is_some() || p.r_err_at.is_some()) {
+        // the splice would move the byte offsets; damaged bytes go through the plain slice reader
+        p.reader = JReader::Slice;
+    }
     p
 }
 
@@ -712,7 +719,7 @@ pub fn sweep_jplans(reg: &[TypeEntry]) -> Vec<JPlan> {
         let gen = simple_gen(&e.gen_kinds);
         let base = JPlan::base(&e.name, gen.clone());
         // fault-free, every reader, compact and pretty, with and without benign disk behaviour
-        for reader in [JReader::Reader, JReader::Slice, JReader::Str, JReader::Buffered, JReader::Value] {
+        for reader in [JReader::Reader, JReader::Slice, JReader::Str, JReader::Buffered, JReader::Value, JReader::Flatten, JReader::Untagged] {
             for pretty in [false, true] {
                 let mut q = base.clone();
                 q.reader = reader;
@@ -755,7 +762,7 @@ pub fn sweep_jplans(reg: &[TypeEntry]) -> Vec<JPlan> {
         if n == 0 || n > 4 {
             continue;
         }
-        for (ri, reader) in [JReader::Reader, JReader::Slice, JReader::Str, JReader::Value].iter().enumerate() {
+        for (ri, reader) in [JReader::Reader, JReader::Slice, JReader::Str, JReader::Value, JReader::Flatten, JReader::Untagged].iter().enumerate() {
             for arr in arrangements(n) {
                 let dropped: Vec<u8> = (0..n as u8).filter(|i| !arr.contains(i)).collect();
                 let mut perm = arr.clone();
@@ -770,7 +777,7 @@ pub fn sweep_jplans(reg: &[TypeEntry]) -> Vec<JPlan> {
                 q.escape_keys = ri == 1;
                 q.ws = (ri % 3) as u8;
                 out.push(q.clone());
-                if *reader != JReader::Value {
+                if ri < 3 {
                     let mut qi = q.clone();
                     qi.in_place = true;
                     out.push(qi);
